@@ -363,6 +363,14 @@ pub fn run_property(prop: &dyn Property, args: &RunArgs) -> std::io::Result<()> 
     )?;
     log.flush()?;
 
+    // Plumbing self-test of the interpreter pass (never set by the registered commands): an
+    // out-of-bounds read that only the interpreter notices.
+    if cfg!(miri) && std::env::var("OQ3_MIRI_SELFTEST").is_ok() {
+        let v = vec![1u8];
+        let x = unsafe { *v.get_unchecked(5) };
+        std::hint::black_box(x);
+    }
+
     let mut obs = Obs::default();
     let mut fps: HashSet<u64> = HashSet::new();
     let mut fp_capped = false;
